@@ -1,6 +1,8 @@
 import GormModel.Drv.Util
 import GormModel.Model.Assoc
 import GormModel.Model.AssocPoly
+import GormModel.Model.AssocKeys
+import GormModel.Model.AssocHandle
 open Lean
 namespace Gorm.Drv
 open Gorm.Assoc
@@ -88,6 +90,91 @@ def polyRunObs : List AssocPoly.POp → AssocPoly.St → List Json
     let s' := AssocPoly.step op { s with log := [] }
     polyObsJ op s' :: polyRunObs ops s'
 
+/-! typed key tuples (Model.AssocKeys) -/
+
+def parseKV (j : Json) : Option KeyVal :=
+  match j with
+  | Json.null => some .nil
+  | _ =>
+    match j.getObjVal? "s" with
+    | .ok v => (jStr? v).map (fun s => KeyVal.str s.toList)
+    | .error _ =>
+      match j.getObjVal? "b" with
+      | .ok v => (jStr? v).map (fun s => KeyVal.bytes s.toList)
+      | .error _ =>
+        match j.getObjVal? "u" with
+        | .ok v => (jNat? v).map KeyVal.uint
+        | .error _ =>
+          match j.getObjVal? "i" with
+          | .ok v => (jInt? v).map KeyVal.int
+          | .error _ => none
+
+def kvShow : KeyVal → String
+  | .str s => "s:" ++ String.ofList s
+  | .bytes s => "b:" ++ String.ofList s
+  | .uint n => "u:" ++ toString n
+  | .int n => "i:" ++ toString n
+  | .nil => "nil"
+
+/-- [addr, [[kv, zero]…]] -/
+def parseRow (j : Json) : Option IdRow := do
+  let a ← jArr? j
+  let addr ← jNat? (arg a 0)
+  let key ← (← jArr? (arg a 1)).toList.mapM fun c => do
+    let ca ← jArr? c
+    some (⟨← parseKV (arg ca 0), ← jBool? (arg ca 1)⟩ : KeyComp)
+  some ⟨addr, key⟩
+
+/-- [many, [rows]] -/
+def parseArgV (j : Json) : Option ArgV := do
+  let a ← jArr? j
+  let many ← jBool? (arg a 0)
+  let rows ← (← jArr? (arg a 1)).toList.mapM parseRow
+  if many then some (.many rows) else (rows.head?).map .one
+
+/-! handle programs (Model.AssocHandle) -/
+
+def parseKind (k : String) : Option OpKind :=
+  match k with
+  | "append" => some .append
+  | "replace" => some .replace
+  | "delete" => some .delete
+  | "clear" => some .clear
+  | _ => none
+
+def parseInstr (j : Json) : Option Instr := do
+  let a ← jArr? j
+  match (← jStr? (arg a 0)) with
+  | "assoc" => some (.assoc (← jNat? (arg a 1)) (← jNat? (arg a 2)))
+  | "unscoped" =>
+    let src ← jNat? (arg a 2)
+    match jNat? (arg a 1) with
+    | some d => some (.unscoped (some d) src)
+    | none => some (.unscoped none src)
+  | "call" => some (.call (← jNat? (arg a 1)) (← parseKind (← jStr? (arg a 2))) [] (← jBool? (arg a 3)))
+  | "read" => some (.read (← jNat? (arg a 1)))
+  | _ => none
+
+def kindStr : OpKind → String
+  | .append => "append"
+  | .replace => "replace"
+  | .delete => "delete"
+  | .clear => "clear"
+
+def evStr : Ev → String
+  | .op r o d => s!"op:{r}:{kindStr o.kind}:{o.unscoped}:{d}"
+  | .refused r => s!"refused:{r}"
+  | .failed r => s!"failed:{r}"
+  | .polluted r => s!"polluted:{r}"
+  | .read r u => s!"read:{r}:{u}"
+  | .nohandle => "nohandle"
+
+def runInstrs (card1 : Nat → Bool) : Heap → List Instr → List Json
+  | _, [] => []
+  | h, i :: is =>
+    let r := exec unscopedFresh card1 h i
+    strListJ (r.2.map evStr) :: runInstrs card1 r.1 is
+
 end HC12
 
 open HC12 in
@@ -143,6 +230,18 @@ def handleC12 (op : String) (args : Array Json) : Option Json := do
     let showT (l : List (List (List Char))) : Json :=
       Json.arr (l.map (fun t => strListJ (t.map String.ofList))).toArray
     some (Json.mkObj [("created", showT (distinctByKey linked [])), ("mem", showT (keepByKey linked nmd))])
+  | "assoc.idvalues" =>
+    -- ["assoc.idvalues", [[many, [[addr, [[kv, zero]…]]…]]…]] -> GetIdentityFieldValuesMapFromValues: {groups: [[key, #elements]…], values}
+    let as ← (← jArr? (arg args 1)).toList.mapM parseArgV
+    let m := identityFromValues as
+    some (Json.mkObj [
+      ("groups", Json.arr (m.groups.map (fun g => Json.arr #[Json.str (String.ofList g.1), natJ g.2.length])).toArray),
+      ("values", Json.arr (m.values.map (fun t => strListJ (t.map kvShow))).toArray)])
+  | "assoc.handles" =>
+    -- ["assoc.handles", card1, [instr…]] -> per instruction the list of events (Unscoped() as the regenerated facts say)
+    let card1 ← jBool? (arg args 1)
+    let is ← (← jArr? (arg args 2)).toList.mapM parseInstr
+    some (Json.arr (runInstrs (fun _ => card1) {} is).toArray)
   | _ => none
 
 end Gorm.Drv
